@@ -70,7 +70,10 @@ def c03j_run(tid, wcfg, cfgline, seed):
     if c is None:
         return rec.lines
     ph = rnd.choice([0, 3, 4, 5, 7, 8, 10, 11, 20, 30, 45, 47, 90, 180, 65535])     # every residue of H modulo 3
-    o = rec.step({'k': 'msg', 'c': c, 'm': 'OPEN', 'h': ph}, c)
+    # the timer contract does not depend on which capabilities the peer advertises
+    pcaps = rnd.choice([None, None, ['mp', 'rr', 'as4', 'gr'], ['mp', 'as4', 'grf', 'llgr'], ['mp', 'rr', 'crr', 'err', 'as4', 'apx', 'xnh'], [], ['as4'],
+                        ['mp', 'mp6', 'rr', 'as4', 'gr', 'llgr', 'err', 'unk']])
+    o = rec.step(dict({'k': 'msg', 'c': c, 'm': 'OPEN', 'h': ph}, **({'caps': pcaps} if pcaps is not None else {})), c)
     if o['st'] != 'OPENCONFIRM':
         return rec.lines
     H = min(wcfg['hold'], ph)
@@ -573,6 +576,11 @@ def c18q_run(tid, wcfg, cfgline, seed):
             rec.step({'k': 'rest', 'c': 0, 'rule': 'send/update', 'method': 'POST', 'cred': 'good',
                       'body': {'attr': {'1': 0, '2': [[2, [65001]]], '3': '10.0.0.1'}, 'nlri': ['10.99.%d.0/24' % r]}, 'm': 'announce'}, 0)
         rec.step({'k': 'msg', 'c': c, 'm': 'KA'}, c)
+    # a peer that catches up after a pause: thousands of small messages in ONE read (up to 64 KB); every one of them counts
+    if rnd.random() < 0.3 and rec.pre['st'] == 'ESTABLISHED' and rec.pre['trcs'] == 'open':
+        n = rnd.choice([2049, 2056, 3000, 3400])
+        burst = b''.join(wire.update() if i % 100 == 7 else (wire.route_refresh() if i % 700 == 13 else wire.keepalive()) for i in range(n))
+        rec.step({'k': 'data', 'c': c, 'hex': burst.hex(), 'cls': 'BURST', 'm': 'burst%d' % n}, c, data=burst)
     # the operator stops the peer at the end of half of the runs (the session may already have sent a queued NOTIFICATION)
     if rnd.random() < 0.5:
         rec.step({'k': 'stop', 'c': 0}, 0)
